@@ -89,6 +89,9 @@ func zzNewRangeEnv(N, P, chunk int) *zzRangeEnv {
 		env.reqs++
 		zz.Gate("send:" + string(to))
 		rs, err := env.behave(idx, req.GetOrigin(), req.Amount, env.reqs)
+		if uint64(len(rs)) > req.Amount {
+			rs = rs[:req.Amount] // the real sendMessage reads at most req.Amount responses from the stream
+		}
 		return rs, 10 * len(rs), err
 	}
 	return env
